@@ -60,6 +60,26 @@ Attained == \E t \in Cands(P) : Val(P, t) = Min(P) /\ \E u \in Cands(P) : Val(P,
 EndsInside == RLe(Min(P), <<P[1], 1>>) /\ RLe(<<P[Len(P)], 1>>, Max(P))
 (* a critical point is a root of the derivative: the control polygon of the split curve has a repeated value there - checked via the derivative value *)
 DerivZero == \A t \in Crit(P) : Len(P) = 4 => A3(P) * t[1] * t[1] + B3(P) * t[1] * t[2] + C3(P) * t[2] * t[2] = 0
+
+\* ---------- total variation on [a/W, b/W]: the arc length of the collinear curve P * (unit direction)   (C06)
+RSub(x, y) == Norm(<<x[1] * y[2] - y[1] * x[2], x[2] * y[2]>>)
+RAdd(x, y) == Norm(<<x[1] * y[2] + y[1] * x[2], x[2] * y[2]>>)
+RAbs(x) == <<Abs(x[1]), x[2]>>
+CutsIn(a, b) == { Norm(<<a, W>>), Norm(<<b, W>>) } \cup { t \in Crit(P) : RLt(<<a, W>>, t) /\ RLt(t, <<b, W>>) }
+RECURSIVE SortSet(_)
+SortSet(S) == IF S = {} THEN <<>> ELSE LET m == CHOOSE x \in S : \A y \in S : RLe(x, y) IN <<m>> \o SortSet(S \ {m})
+RECURSIVE SumVar(_, _)
+SumVar(cs, i) == IF i >= Len(cs) THEN <<0, 1>> ELSE RAdd(RAbs(RSub(Norm(Val(P, cs[i+1])), Norm(Val(P, cs[i])))), SumVar(cs, i+1))
+TV(a, b) == IF a = b THEN <<0, 1>> ELSE SumVar(SortSet(CutsIn(a, b)), 1)
+TVOK == \A t \in Crit(P) : t[2] <= 3          \* keeps every cross product below 2^31
+TVAdditive == TVOK => \A m \in 0..j : RAdd(TV(0, m), TV(m, j)) = TV(0, j)
+TVAtLeastChord == TVOK => RLe(RAbs(RSub(Norm(Val(P, <<j, W>>)), <<P[1], 1>>)), TV(0, j))
+RECURSIVE PolyLen(_)
+PolyLen(i) == IF i >= Len(P) THEN 0 ELSE Abs(P[i+1] - P[i]) + PolyLen(i+1)
+TVAtMostPolygon == TVOK => RLe(TV(0, W), <<PolyLen(1), 1>>)
+TVMonotone == [][TVOK => RLe(TV(0, j), TV(0, j'))]_vars
 AtStart == j = 0
-Dump == j = 0 => PrintT(ToJson([P |-> P, min |-> Min(P), max |-> Max(P), ncrit |-> Cardinality({ t \in Crit(P) : In01(t) })]))
+Dump == j = 0 => PrintT(ToJson([P |-> P, min |-> Min(P), max |-> Max(P), ncrit |-> Cardinality({ t \in Crit(P) : In01(t) }),
+                                tvok |-> TVOK, tv |-> IF TVOK THEN [i \in 1..(W+1) |-> TV(0, i-1)] ELSE <<>>,
+                                tvmid |-> IF TVOK THEN TV(W \div 4, (3 * W) \div 4) ELSE <<0, 1>>]))
 =============================================================================
